@@ -22,3 +22,5 @@ if [ -f "$D/demo.py" ]; then
 fi
 # the generated Lean files must describe the clean tree again
 cd /repo && git checkout -- . 2>/dev/null; cd /verif && for g in gen_tables py2lean g4_tables; do PYTHONPATH=/repo /venv/bin/python harness/$g.py >/dev/null 2>&1; done
+# evidence / replay files written while the change was applied do not describe the tree
+git -C /verif checkout -- evidence replays 2>/dev/null
